@@ -2,7 +2,7 @@
 // Compiled as `cbh_stats::folo_verif`. Float code is restricted to comparisons, conversions of small
 // integers and a handful of additions / divisions; everything that goes through exp / erfc / the
 // continued fraction / the exact rank-sum DP is outside (DESIGN.md P13).
-use crate::{clamp_p_value, exact_mw_feasible, mann_whitney_tie_term, pettitt_rank_location, scaled_average_ranks};
+use crate::{clamp_p_value, exact_mw_feasible, mann_whitney_tie_term, median, pettitt_rank_location, scaled_average_ranks};
 use crate::{folo_verif_exact_tail_p_values, folo_verif_same};
 
 include!(concat!(env!("FOLO_VERIF_DIR"), "/kani/common/nd.rs"));
@@ -172,7 +172,42 @@ fn feasible_small() {
     assert!(got == !over, "exact test used exactly while the split count fits an f64 mantissa");
 }
 
+fn same_bits(a: f64, b: f64) -> bool {
+    a.to_bits() == b.to_bits() || (a.is_nan() && b.is_nan())
+}
+
+/// median of 3 arbitrary f64 = the middle element of the documented total order; of 2 = their midpoint.
+fn median3() {
+    let v = [nd::f64(), nd::f64(), nd::f64()];
+    let m = median(&v).unwrap();
+    let mut less = 0;
+    let mut greater = 0;
+    let mut is_input = false;
+    let mut i = 0;
+    while i < 3 {
+        match v[i].total_cmp(&m) {
+            std::cmp::Ordering::Less => less += 1,
+            std::cmp::Ordering::Greater => greater += 1,
+            std::cmp::Ordering::Equal => is_input = true,
+        }
+        i += 1;
+    }
+    assert!(is_input && less <= 1 && greater <= 1, "median of three = middle element under total_cmp");
+    let w = [nd::f64(), nd::f64()];
+    nd::assume(w[0].is_finite() && w[1].is_finite()); // the midpoint of +inf and -inf is NaN by IEEE arithmetic; data is infinite-free
+    let m2 = median(&w).unwrap();
+    let (lo, hi) = if w[0].total_cmp(&w[1]) == std::cmp::Ordering::Greater { (w[1], w[0]) } else { (w[0], w[1]) };
+    assert!(same_bits(m2, f64::midpoint(lo, hi)), "median of two = midpoint of the ordered pair");
+    assert!(median(&[]).is_none());
+    witness!(less == 1 && greater == 1, "strict middle");
+    witness!(v[0].is_nan(), "NaN present");
+}
+
 harnesses! {
+    // @verif id=C20 tier=quick timeout=900 mem=12 expect=pass covers=2
+    // @bounds median of 3 ARBITRARY f64 (NaN, infinities, signed zeros) and of 2 arbitrary finite f64 vs the order definition
+    fn c20_median_3_and_2 [unwind 5] { median3() }
+
     // @verif id=C20 tier=quick timeout=300 mem=8 expect=pass covers=4
     // @bounds clamp_p_value for EVERY f64 (NaN, infinities, subnormals, negatives included)
     fn c20_clamp_p_value_all_f64 [unwind 2] { clamp_all() }
